@@ -201,9 +201,10 @@ class ModelCompiler:
                     not isinstance(input_dict[item], (float, int))
                     and input_dict[item][0] == '='
             ):
+                # Unqualified references belong to the sheet of the cell.
                 formula = xltypes.XLFormula(
                     input_dict[item],
-                    sheet_name=default_sheet
+                    sheet_name=cell_address.rpartition('!')[0]
                 )
                 cell = xltypes.XLCell(
                     cell_address, None,
